@@ -27,6 +27,7 @@ def run(tier):
     R.add_registry(reg)
     try:
         C03.integrator_contracts(R, reg, src, PID)
+        R.under_contract(intcall.check_controller_error_measure(reg, src, PID))
         for fi in IC.verify_helpers(src, reg, PID):
             R.under_contract(fi)
         R.under_contract(src.func(IC.F, "OdeSystem.integrate"))
